@@ -34,7 +34,13 @@ def empty_spec():
     return s
 
 
-def build(spec):
+def caller_arrays(spec):
+    """the per-atom data as numpy arrays owned by the caller (to be handed to several constructions)"""
+    return {"atom_types": np.array(spec["atom_types"], dtype=int), "positions": np.array(spec["pos"], float).reshape(-1, 3),
+            "charges": np.array(spec["charges"], dtype=float), "groups": np.array(spec["groups"], dtype=int)}
+
+
+def build(spec, arrays=None):
     from mofun import Atoms
     kw = dict(atom_types=list(spec["atom_types"]), positions=np.array(spec["pos"], float).reshape(-1, 3),
               atom_type_elements=list(spec["type_elements"]), atom_type_labels=list(spec["type_labels"]),
@@ -49,6 +55,8 @@ def build(spec):
         kw[COEFF_ATTR[k]] = list(spec[k + "_coeffs"])
         kw["extra_%s_labels" % k] = list(spec["extra_%s_labels" % k])
         kw["extra_%s_fields" % k] = [list(r) for r in spec["extra_%s_fields" % k]] if spec["extra_%s_labels" % k] else []
+    if arrays is not None:
+        kw.update(arrays)
     with silenced():
         return Atoms(**kw)
 
